@@ -285,7 +285,12 @@ theorem inv_tick {s : Sys} (h : Inv s) (fl : Option Inflight)
   map := h.map
   infl := hfl
 
-theorem inv_act (s : Sys) (a : Action) (h : Inv s) : Inv (act s a) := by
+theorem sendAtomic_of_good {sh : Shapes} (hg : sh.good = true) (b : Bool) : sh.sendAtomic b = true := by
+  unfold Shapes.good at hg
+  simp only [Bool.and_eq_true] at hg
+  cases b <;> simp [Shapes.sendAtomic, hg.1.1.1, hg.1.1.2]
+
+theorem inv_act (sh : Shapes) (hg : sh.good = true) (s : Sys) (a : Action) (h : Inv s) : Inv (act sh s a) := by
   cases a with
   | register lt id ack cap =>
     simp only [act]
@@ -389,6 +394,7 @@ theorem inv_act (s : Sys) (a : Action) (h : Inv s) : Inv (act s a) := by
                 subst hfe
                 exact ⟨q, hq1, hq2, fun _ => hq3 (by omega), fun _ => hnot⟩)
           · simp only [h4, if_false]
+            rw [if_pos (sendAtomic_of_good hg f.r.isAck)]
             have h5 : 5 ≤ f.stage := by omega
             have hq' : q ∈ s.objs := List.mem_of_getElem? hq1
             exact inv_modAt_none h _ f.ref
